@@ -40,6 +40,7 @@ CONSTANTS
   EnvStop,      \* the environment may stop the server
   EnvSendFail,  \* the transport may refuse one write of a stream's SendMsg while the connection stays up
   EarlyReturn,  \* handlers may return before consuming what the caller sent
+  HandlerWaits, \* a handler may stop receiving and wait for its context, once its caller has cancelled
   AdvClient,    \* number of arbitrary envelopes an adversarial peer may send to the server (C12)
   AdvServer,    \* number of arbitrary envelopes an adversarial peer may send to the client (C13);
                 \* when > 0 there is no real server
@@ -628,6 +629,9 @@ HChoose(id) ==
   /\ hpc[id] = "run"
   /\ \/ ~hsawEOF[id] /\ hpc' = [hpc EXCEPT ![id] = "recv"] /\ UNCHANGED hres
      \/ hsentN[id] < MaxS /\ hpc' = [hpc EXCEPT ![id] = "send"] /\ UNCHANGED hres
+     \* <-ctx.Done() without receiving: legitimate, the caller HAS cancelled and goat is to deliver that (C07)
+     \/ /\ HandlerWaits /\ \E c \in Streams : idOf[c] = id /\ cancelled[c]
+        /\ hpc' = [hpc EXCEPT ![id] = "ctxwait"] /\ UNCHANGED hres
      \/ /\ EarlyReturn \/ hsawEOF[id] \/ id \in hctx
         /\ \E ok \in BOOLEAN : hres' = [hres EXCEPT ![id] = IF ok THEN "ok" ELSE "err"]
         /\ hpc' = [hpc EXCEPT ![id] = "trailer"]
@@ -635,6 +639,14 @@ HChoose(id) ==
                  spc, sop, nsent, closed, cancelled, sres, rpc, rcur, sctx, rdone, rterm, rChClosed, prot,
                  gotTrailer, srpc, srcur, srvLock, sreg, sch, hctx, hdoneSig, connCtx, wpc, wcur, wrpc, wrcur,
                  hrecv, hsentN, hsawEOF, waitFor, sReadFailed, stopped, serveRet, advN>>
+
+HCtxWait(id) ==
+  /\ hpc[id] = "ctxwait" /\ id \in hctx
+  /\ hpc' = [hpc EXCEPT ![id] = "run"]
+  /\ UNCHANGED <<c2s, s2c, nextId, idOf, muxLock, reg, respCh, respDone, rErr, mpc, mcur, cReadFailed, upc, ures,
+                 spc, sop, nsent, closed, cancelled, sres, rpc, rcur, sctx, rdone, rterm, rChClosed, prot,
+                 gotTrailer, srpc, srcur, srvLock, sreg, sch, hctx, hdoneSig, connCtx, wpc, wcur, wrpc, wrcur,
+                 hrecv, hsentN, hres, hsawEOF, waitFor, sReadFailed, stopped, serveRet, advN>>
 
 \* select { <-handler.ch ; <-ctx.Done }
 HRecv(id) ==
@@ -779,7 +791,7 @@ Next ==
   \/ SrvRead \/ SrvToWorker \/ SrvLockClassify \/ SrvForward \/ SrvReset \/ SrvExit \/ SrvCancelAndWait \/ SrvWaitDone
   \/ \E w \in Workers : WkRun(w) \/ WkHandoff(w) \/ WkExit(w)
   \/ WrWrite \/ WrExit
-  \/ \E i \in Ids : HChoose(i) \/ HRecv(i) \/ HSend(i) \/ HTrailer(i) \/ HCancel(i) \/ HUnregister(i)
+  \/ \E i \in Ids : HChoose(i) \/ HCtxWait(i) \/ HRecv(i) \/ HSend(i) \/ HTrailer(i) \/ HCancel(i) \/ HUnregister(i)
   \/ ClientReadFail \/ Stop \/ PeerClosesAfterServe \/ ServerSeesClose
   \/ AdvSendsToServer \/ AdvSendsToClient \/ AdvCloses
   \/ Terminated
